@@ -33,5 +33,12 @@ defs.update({
     "gen_kibble_m3_0": Kibble(s1, s2, s3, m0, m1, m2, Z).doit(),
     "gen_kibble_s1_0": Kibble(Z, s2, s3, m0, m1, Z, Z).doit(),
 })
+# the same expression classes constructed through keywords in shuffled order (the constructor must bind by name)
+defs.update({
+    "gen_kallen_kw": Kallen(z=z, x=x, y=y).doit(),
+    "gen_kibble_kw_masses_first": Kibble(m0=m0, m1=m1, m2=m2, m3=m3, sigma1=s1, sigma2=s2, sigma3=s3).doit(),
+    "gen_kibble_kw_mixed": Kibble(s1, s2, s3, m2=m2, m0=m0, m3=m3, m1=m1).doit(),
+    "gen_kibble_kw_reversed": Kibble(m3=m3, m2=m2, m1=m1, m0=m0, sigma3=s3, sigma2=s2, sigma1=s1).doit(),
+})
 write_gen(out, "bridge/symgen_C20.py", defs)
 print("ok", {k: len(str(v)) for k, v in defs.items()})
